@@ -77,7 +77,7 @@ def c02_quorum_expr : Bool := true
 def c02_timeout_guard : String := "ti.Height != rs.Height || ti.Round < rs.Round || (ti.Round == rs.Round && ti.Step < rs.Step)"
 
 /-- cond consensus/state.go State.addVote -/
-def c02_unlock_on_polka : String := "<missing>"
+def c02_unlock_on_polka : String := "(cs.LockedBlock != nil) && (cs.LockedRound < vote.Round) && (vote.Round <= cs.Round) && !cs.LockedBlock.HashesTo(blockID.Hash)"
 
 /-- has consensus/state.go State.signVote -/
 def c02_vote_carries_cs_round : Bool := true
